@@ -91,7 +91,16 @@ def match_known(case, known):
     of entry['match'] must be present in the case with an equal value."""
     for k in known:
         m = k["match"]
-        if all(jsonable(case.get(key)) == val for key, val in m.items()):
+        ok = True
+        for key, val in m.items():
+            got = jsonable(case.get(key))
+            if isinstance(val, dict) and "any_of" in val:
+                ok = got in val["any_of"]
+            else:
+                ok = got == val
+            if not ok:
+                break
+        if ok:
             return k
     return None
 
